@@ -614,3 +614,99 @@ def r7(R):
             R.instance('persistent_id: %s' % ast.unparse(r))
     for v in vs:
         R.violation(v.node, v.message, g, v.path)
+
+
+# ------------------------------------------------------------------ C14.R8
+@rule('C14.R8', 'conflict resolution rewrites a reference (class that '
+      'cannot be imported -> its name) only within the shape it was read '
+      'in: a two-field tuple is stored back only for a tuple reference',
+      props=['C10'], min_instances=1)
+def r8(R):
+    cls = R.prog.cls(PREF)
+    f = R.method(cls, '__init__')
+    g, b, F = R.cfg(f, cls, max_depth=0)
+    dparam = [p for p in f.params if p != 'self'][0]
+    seen = [0]
+
+    def edge(node, st, lab, tgt):
+        if node.kind == 'test' and lab in ('T', 'F'):
+            for e, truth in implied_atoms(node.ast, lab):
+                if isinstance(e, ast.Call) and isinstance(
+                        e.func, ast.Name) and e.func.id == 'isinstance' and \
+                        len(e.args) == 2 and isinstance(
+                            e.args[0], ast.Name) and \
+                        e.args[0].id == dparam and ast.unparse(
+                            e.args[1]) == 'tuple':
+                    return 'tuple' if truth else 'not-tuple'
+        return st
+
+    def at(node, st):
+        a = node.ast
+        if node.kind == 'stmt' and isinstance(a, ast.Assign) and any(
+                dotted(t) == ('self', 'data') for t in a.targets
+                if isinstance(t, ast.Attribute)) and isinstance(
+                    a.value, ast.Tuple):
+            seen[0] += 1
+            if st != 'tuple':
+                return Violation(
+                    'PersistentReference stores back a %d-field tuple '
+                    'reference on a path where the reference read was not a '
+                    'tuple (a cross-database or weak reference): the '
+                    'resolved record holds a same-database reference to '
+                    'another object than the one the original referred to'
+                    % len(a.value.elts))
+        return st
+
+    vs, stats = explore(g, 'unknown', at=at, edge=edge)
+    R.count(stats)
+    R.instance('PersistentReference.__init__ rewrites', sites=seen[0])
+    R.require(seen[0] or vs, 'PersistentReference no longer rewrites '
+              'references to unimportable classes')
+    for v in vs:
+        R.violation(v.node, v.message, g, v.path)
+
+
+# ------------------------------------------------------------------ C14.R9
+@rule('C14.R9', 'a cross-database reference resolves through the CURRENT '
+      'cache of the other connection: the reader does not keep a reader '
+      '(or a cache) of another connection', min_instances=2)
+def r9(R):
+    cls = R.prog.cls(READER)
+    n = 0
+    for name, f in sorted(cls.methods.items()):
+        uses = [c for c in walk_local(f.node) if isinstance(c, ast.Call)
+                and dotted(c.func) and dotted(c.func)[-1] == 'ObjectReader']
+        for c in uses:
+            n += 1
+            R.instance('ObjectReader.%s: %s' % (name, ast.unparse(c)[:60]))
+        if not uses and not any(
+                isinstance(x, ast.Attribute) and x.attr == '_cache' and
+                not (isinstance(x.value, ast.Name) and x.value.id == 'self')
+                for x in walk_local(f.node)):
+            continue
+        g, b, F = R.cfg(f, cls, max_depth=0)
+        for op in F.all_ops():
+            if op.kind not in ('store', 'setitem') or not op.path or \
+                    op.path[0] != 'self':
+                continue
+            v = op.stmt.value if isinstance(op.stmt, ast.Assign) else None
+            if v is None:
+                continue
+            pv = provenance(v, op.node.frame, F)
+            foreign = prov_has(pv, 'call', lambda p: p[-1].split('.')[-1]
+                               == 'ObjectReader') or (
+                prov_has(pv, 'attr', lambda a: a == '_cache') and prov_has(
+                    pv, 'call', lambda p: p[-1] == 'get_connection'))
+            if foreign:
+                R.violation(
+                    op.node, 'ObjectReader.%s keeps `%s` in `%s`: a reader '
+                    'bound to the cache another connection had at that '
+                    'moment.  Connection._resetCache replaces that cache '
+                    '(and fixes up only the connection\'s own reader), so '
+                    'later cross-database references resolve through the '
+                    'discarded cache: a second in-memory object for one id, '
+                    'which gets no invalidations' % (
+                        name, ast.unparse(v)[:40],
+                        '.'.join(str(x) for x in op.path)))
+    R.require(n >= 2, 'ObjectReader no longer builds readers for '
+              'cross-database references')
